@@ -180,7 +180,7 @@ def merge(dumps):
     return out
 
 
-def run_cases(oracle, ctx, indices, stop_after_violations=200):
+def run_cases(oracle, ctx, indices, stop_after_violations=200, not_counted=()):
     """Run oracle.run_case for each index with its own deterministic RNG."""
     for idx in indices:
         ctx.case_idx = idx
@@ -196,6 +196,6 @@ def run_cases(oracle, ctx, indices, stop_after_violations=200):
                 {"traceback": traceback.format_exc()[-3000:]},
             )
         ctx.cases_run += 1
-        if sum(ctx.viol_counts.values()) > stop_after_violations:
+        if sum(v for k, v in ctx.viol_counts.items() if k not in not_counted) > stop_after_violations:
             ctx.note("stopped_early_too_many_violations")
             break
